@@ -643,19 +643,19 @@ class Sim(object):
         if f == "reset":
             if st is not None:
                 st.broken = True
-            raise ConnectionResetError(errno.ECONNRESET, "Connection reset by peer")
+            raise ConnectionResetError(errno.ECONNRESET, "Connection reset by peer {fd 7} %s {0}")
         if f == "pipe":
             if st is not None:
                 st.broken = True
-            raise BrokenPipeError(errno.EPIPE, "Broken pipe")
+            raise BrokenPipeError(errno.EPIPE, "Broken pipe {} %d")
         if f == "timeout":
-            raise _real_socket.timeout("timed out")
+            raise _real_socket.timeout("timed out {0!r}")
         if f == "oserror":
-            raise OSError(errno.EIO, "injected I/O error")
+            raise OSError(errno.EIO, "injected I/O error {x} %(y)s }{")
         if f == "sslerror":
-            raise _real_ssl.SSLError("injected TLS error")
+            raise _real_ssl.SSLError("injected TLS error {0} %s")
         if f == "exc":
-            raise InjectedError("injected arbitrary exception")
+            raise InjectedError("injected arbitrary exception {} {0} %s {x!r}")
         raise HarnessHang("unknown fault kind %r" % (f,))
 
     def raise_broken(self, st, sending=False):
@@ -668,10 +668,10 @@ class Sim(object):
         if kind == "tls_eof":
             raise _real_ssl.SSLEOFError(_real_ssl.SSL_ERROR_EOF, "EOF occurred in violation of protocol")
         if kind == "io_error":
-            raise OSError(errno.EHOSTUNREACH, "No route to host")
+            raise OSError(errno.EHOSTUNREACH, "No route to host {host} %s")
         if sending:
-            raise BrokenPipeError(errno.EPIPE, "Broken pipe")
-        raise ConnectionResetError(errno.ECONNRESET, "Connection reset by peer")
+            raise BrokenPipeError(errno.EPIPE, "Broken pipe {} %d")
+        raise ConnectionResetError(errno.ECONNRESET, "Connection reset by peer {fd 7} %s {0}")
 
     # -- attempts / sockets ---------------------------------------------------
     def attempt(self):
@@ -763,7 +763,7 @@ class Sim(object):
             return
         st.broken = True
         if how == "reset":
-            raise ConnectionResetError(errno.ECONNRESET, "Connection reset by peer")
+            raise ConnectionResetError(errno.ECONNRESET, "Connection reset by peer {fd 7} %s {0}")
         if how == "eof":
             st.break_kind = "tls_eof"
             raise _real_ssl.SSLEOFError(_real_ssl.SSL_ERROR_EOF, "EOF occurred in violation of protocol")
@@ -788,12 +788,12 @@ class Sim(object):
                 self.tls_handshake(st)
             return
         if how == "refused":
-            raise ConnectionRefusedError(errno.ECONNREFUSED, "Connection refused")
+            raise ConnectionRefusedError(errno.ECONNREFUSED, "Connection refused {0}")
         if how == "timeout":
             self.now += st.timeout or 0.0
-            raise _real_socket.timeout("timed out")
+            raise _real_socket.timeout("timed out {0!r}")
         if how == "unreach":
-            raise OSError(errno.ENETUNREACH, "Network is unreachable")
+            raise OSError(errno.ENETUNREACH, "Network is unreachable {net} %s")
         if how == "exc":
             raise InjectedError("injected connect exception")
         raise HarnessHang("bad connect outcome %r" % (how,))
@@ -857,7 +857,7 @@ class Sim(object):
             elif tmo is not None:
                 self.now += tmo
                 self.log_op("recv_fail", st, "timeout")
-                raise _real_socket.timeout("timed out")
+                raise _real_socket.timeout("timed out {0!r}")
             else:
                 raise HarnessHang("blocking recv() with nothing ever to come")
         if st.inbox:
